@@ -186,12 +186,12 @@ func (l *c17Listener) isClosed() bool {
 
 // c17Tap installs a channel into a traceLogger and classifies the records.
 type c17Tap struct {
-	side    string
-	run     *c17Run
-	ch      chan []byte
-	done    chan struct{}
-	quit    bool
-	logger  *traceLogger
+	side   string
+	run    *c17Run
+	ch     chan []byte
+	done   chan struct{}
+	quit   bool
+	logger *traceLogger
 }
 
 var c17DevNull *os.File
@@ -628,7 +628,11 @@ func (r *c17Run) serverRole() {
 	if err != nil {
 		st.serverErrorQuiet(err)
 	}
-	st.cleanup()
+	if !r.mild {
+		st.cleanup()
+	}
+	// with a relay in the path the server's end is closed last (see c17EOFConn): the relay's
+	// pump loops for ever when its own side closes a connection it is still reading
 }
 
 // serverErrorQuiet tells the client about a failure like serverError does, without the
@@ -705,7 +709,7 @@ func (r *c17Run) finishTransfer(constrained bool) (hung bool) {
 	r.rec.emit(map[string]any{"e": "ret", "role": "V", "ok": sok, "msg": serr}, nil)
 	r.rec.emit(map[string]any{"e": "ret", "role": "C", "ok": cok, "msg": cerr}, nil)
 	r.rec.emit(map[string]any{"e": "fs", "same": same, "detail": detail}, nil)
-	return hung
+	return hung && constrained
 }
 
 func (r *c17Run) compareFiles() (bool, string) {
@@ -776,6 +780,9 @@ func (r *c17Run) close() {
 	select {
 	case r.retCh <- nil:
 	default:
+	}
+	if r.mild {
+		time.Sleep(30 * time.Millisecond)
 	}
 	r.st.cleanup()
 	for _, t := range []*c17Tap{r.tapS, r.tapC} {
@@ -975,7 +982,7 @@ func (r *c17Run) step(a string, i int) {
 		if r.outcome != "refuse" && !(r.outcome == "good" && r.sa == nil) {
 			r.ca, r.cb = net.Pipe()
 			conn, res = r.ca, "conn"
-			if r.outcome == "dead" {
+			if r.outcome == "dead" || r.pclosedNow() {
 				r.cb.Close()
 				r.cbReader.Store(true)
 			}
@@ -1016,7 +1023,9 @@ func (r *c17Run) step(a string, i int) {
 		}
 	case "peof":
 		r.rec.emit(map[string]any{"e": "peof"}, func() { r.pclosed = true })
-		r.cb.Close()
+		if r.cb != nil {
+			r.cb.Close()
+		}
 		time.Sleep(300 * time.Microsecond)
 	case "timer":
 		// the one-second timer has certainly fired once the ACT line is out
@@ -1623,6 +1632,57 @@ func c17RunTCP(p *c17TCPPlan, base string) ([]map[string]any, map[string]any, er
 	return r.rec.evs, info, nil
 }
 
+func c17ReadPlans(d *vCtx) ([]*c17TCPPlan, error) {
+	pf := d.pStr("plans", "")
+	if pf == "" {
+		return nil, nil
+	}
+	raw, err := vReadNDJSON(pf)
+	if err != nil {
+		return nil, err
+	}
+	res := []*c17TCPPlan{}
+	for _, m := range raw {
+		b, _ := json.Marshal(m)
+		p := &c17TCPPlan{}
+		if err := json.Unmarshal(b, p); err != nil {
+			return nil, err
+		}
+		res = append(res, p)
+	}
+	return res, nil
+}
+
+func c17RandomTCPPlan(p *c17TCPPlan, rng *rand.Rand, scripts []string) {
+	if rng.Intn(5) == 0 {
+		p.Outcome = "refuse"
+	}
+	if rng.Intn(10) == 0 {
+		p.LateMs = 1100 + rng.Intn(300)
+	} else if rng.Intn(3) == 0 {
+		p.LateMs = rng.Intn(8)
+	}
+	ns := rng.Intn(4)
+	first := "absent"
+	if p.Outcome == "good" {
+		first = "genuine"
+	}
+	p.Scripts = []string{first}
+	storm := rng.Intn(4) == 0
+	for k := 0; k < ns; k++ {
+		sc := scripts[rng.Intn(len(scripts))]
+		if storm {
+			sc = "right"
+		}
+		p.Scripts = append(p.Scripts, sc)
+		dl := rng.Intn(4000)
+		if storm || rng.Intn(3) == 0 {
+			dl = 0
+		}
+		p.Delays = append(p.Delays, dl)
+	}
+}
+
 func c17TCP(d *vCtx) error {
 	var err error
 	os.Unsetenv("TMUX")
@@ -1650,34 +1710,20 @@ func c17TCP(d *vCtx) error {
 		sem := make(chan struct{}, par)
 		var firstErr error
 		cnt := 0
-		for id := si; id < n; id += sn {
+		fixed, err := c17ReadPlans(d)
+		if err != nil {
+			return err
+		}
+		total := n
+		if fixed != nil {
+			total = len(fixed)
+		}
+		for id := si; id < total; id += sn {
 			p := &c17TCPPlan{ID: id + 1, Seed: d.seed, Outcome: "good"}
-			if rng.Intn(5) == 0 {
-				p.Outcome = "refuse"
-			}
-			if rng.Intn(10) == 0 {
-				p.LateMs = 1100 + rng.Intn(300)
-			} else if rng.Intn(3) == 0 {
-				p.LateMs = rng.Intn(8)
-			}
-			ns := rng.Intn(4)
-			first := "absent"
-			if p.Outcome == "good" {
-				first = "genuine"
-			}
-			p.Scripts = []string{first}
-			storm := rng.Intn(4) == 0
-			for k := 0; k < ns; k++ {
-				sc := scripts[rng.Intn(len(scripts))]
-				if storm {
-					sc = "right"
-				}
-				p.Scripts = append(p.Scripts, sc)
-				dl := rng.Intn(4000)
-				if storm || rng.Intn(3) == 0 {
-					dl = 0
-				}
-				p.Delays = append(p.Delays, dl)
+			if fixed != nil {
+				p = fixed[id]
+			} else {
+				c17RandomTCPPlan(p, rng, scripts)
 			}
 			plans = append(plans, p)
 			cnt++
@@ -1743,6 +1789,19 @@ func (t *c17PortTap) Write(p []byte) (int, error) {
 }
 func (t *c17PortTap) Close() error { return nil }
 
+// c17EOFConn reports every read error as io.EOF.  tunnelRelay.wrapOutput / wrapInput loop for
+// ever (allocating 32 KiB per turn) on a read error other than io.EOF, e.g. after the relay
+// itself closed the connection; that is outside this property but would starve the harness.
+type c17EOFConn struct{ net.Conn }
+
+func (c *c17EOFConn) Read(b []byte) (int, error) {
+	n, err := c.Conn.Read(b)
+	if err != nil && err != io.EOF {
+		err = io.EOF
+	}
+	return n, err
+}
+
 type c17WC struct{ io.Writer }
 
 func (c17WC) Close() error { return nil }
@@ -1780,8 +1839,19 @@ func c17RunRelay(p *c17TCPPlan, base string) ([]map[string]any, map[string]any, 
 		if err != nil {
 			return nil
 		}
-		return c
+		return &c17EOFConn{Conn: c}
 	})
+	// steering only: which connection the relay adopts (it forgets it again when it resets)
+	var relayAdopted atomic.Value
+	go func() {
+		for !r.teardown.Load() {
+			if tr := relay.tunnelRelay.Load(); tr != nil {
+				relayAdopted.Store(tr.clientConn.RemoteAddr().String())
+				return
+			}
+			time.Sleep(50 * time.Microsecond)
+		}
+	}()
 	start := make(chan struct{})
 	connector := func(port int) net.Conn {
 		r.connCalls.Add(1)
@@ -1860,12 +1930,12 @@ func c17RunRelay(p *c17TCPPlan, base string) ([]map[string]any, map[string]any, 
 		}
 	}
 	if anyReply {
-		c17WaitFor(func() bool { return relay.tunnelRelay.Load() != nil }, 500*time.Millisecond)
+		c17WaitFor(func() bool { a, _ := relayAdopted.Load().(string); return a != "" }, 500*time.Millisecond)
 	}
 	constrained := true
-	if tr := relay.tunnelRelay.Load(); tr != nil {
+	if a, _ := relayAdopted.Load().(string); a != "" {
 		for _, d := range r.dialers {
-			if d.d != nil && d.d.LocalAddr().String() == tr.clientConn.RemoteAddr().String() {
+			if d.d != nil && d.d.LocalAddr().String() == a {
 				constrained = false
 			}
 		}
@@ -1918,30 +1988,43 @@ func c17Relay(d *vCtx) error {
 		if err != nil {
 			return err
 		}
-		rng := d.rng(int64(1800 + si))
+		id0 := d.pInt("id0", 0)
+		rng := d.rng(int64(1800 + si + 1000*id0))
 		var mu sync.Mutex
 		var infos []map[string]any
 		var wg sync.WaitGroup
 		sem := make(chan struct{}, par)
 		var firstErr error
 		cnt := 0
-		for id := si; id < n; id += sn {
-			p := &c17TCPPlan{ID: id + 1, Seed: d.seed, Outcome: "good", Relay: true}
-			if rng.Intn(6) == 0 {
-				p.Outcome = "refuse"
-			}
-			if rng.Intn(12) == 0 {
-				p.LateMs = 1100 + rng.Intn(300)
-			}
-			first := "absent"
-			if p.Outcome == "good" {
-				first = "genuine"
-			}
-			p.Scripts = []string{first}
-			ns := rng.Intn(3)
-			for k := 0; k < ns; k++ {
-				p.Scripts = append(p.Scripts, scripts[rng.Intn(len(scripts))])
-				p.Delays = append(p.Delays, rng.Intn(3000))
+		fixed, err := c17ReadPlans(d)
+		if err != nil {
+			return err
+		}
+		total := n
+		if fixed != nil {
+			total = len(fixed)
+		}
+		for id := si; id < total; id += sn {
+			p := &c17TCPPlan{ID: id0 + id + 1, Seed: d.seed, Outcome: "good", Relay: true}
+			if fixed != nil {
+				p = fixed[id]
+			} else {
+				if rng.Intn(6) == 0 {
+					p.Outcome = "refuse"
+				}
+				if rng.Intn(12) == 0 {
+					p.LateMs = 1100 + rng.Intn(300)
+				}
+				first := "absent"
+				if p.Outcome == "good" {
+					first = "genuine"
+				}
+				p.Scripts = []string{first}
+				ns := rng.Intn(3)
+				for k := 0; k < ns; k++ {
+					p.Scripts = append(p.Scripts, scripts[rng.Intn(len(scripts))])
+					p.Delays = append(p.Delays, rng.Intn(3000))
+				}
 			}
 			cnt++
 			wg.Add(1)
